@@ -4,6 +4,7 @@ import (
 	"bufio"
 	"bytes"
 	"fmt"
+	"io"
 	"io/ioutil"
 	"os"
 	"path/filepath"
@@ -386,6 +387,127 @@ func init() {
 			one(func() error { _, err := control.ConvertToParagraph(nil); return err }),
 			one(func() error { return control.Marshal(&buf, sl) }),
 		}, " ") + " written=" + strconv.Itoa(buf.Len())
+	}
+	// cprivate text: a caller's struct with PRIVATE fields (a flag, a counter, a list) next to its exported ones and the embedded
+	// paragraph, decoded from a document that happens to have fields of those names ("seen: yes"), as one struct and as a
+	// slice: the private fields are none of the document's business - no panic, they keep their values, the exported fields
+	// are decoded, and Marshal does not write them
+	ops["cprivate"] = func(a []string) string {
+		type T struct {
+			control.Paragraph
+			Package string
+			seen    bool
+			count   int
+			note    string
+			tags    []string
+		}
+		one := func(f func() string) (r string) {
+			defer func() {
+				if recover() != nil {
+					r = "panic"
+				}
+			}()
+			return f()
+		}
+		r1 := one(func() string {
+			t := T{seen: true, count: 7, note: "mine", tags: []string{"t"}}
+			if err := control.Unmarshal(&t, strings.NewReader(arg(a, 0))); err != nil {
+				return "err"
+			}
+			if !t.seen || t.count != 7 || t.note != "mine" || len(t.tags) != 1 {
+				return "private-field-changed"
+			}
+			var buf bytes.Buffer
+			if err := control.Marshal(&buf, &T{Package: "p", seen: true, count: 7, note: "mine", tags: []string{"t"}}); err != nil {
+				return "marshal-err"
+			}
+			return "ok " + hx(t.Package) + " " + hx(buf.String())
+		})
+		r2 := one(func() string {
+			var ts []T
+			if err := control.Unmarshal(&ts, strings.NewReader(arg(a, 0))); err != nil {
+				return "err"
+			}
+			names := []string{}
+			for _, t := range ts {
+				names = append(names, hx(t.Package))
+			}
+			return "ok " + showList(names)
+		})
+		return r1 + " | " + r2
+	}
+	// cdecodenil type text: nil in the place of the target - nil, a nil *T - through Unmarshal, Decoder.Decode and
+	// UnpackFromParagraph: an error each time, never a panic; and a slice of pointers []*T as the target of a document
+	ops["cdecodenil"] = func(a []string) string {
+		z, ok := probe.Types[arg(a, 0)]
+		if !ok {
+			return "no-such-type"
+		}
+		nilPtr := reflect.Zero(reflect.PtrTo(reflect.TypeOf(z))).Interface()
+		one := func(f func() error) (r string) {
+			defer func() {
+				if recover() != nil {
+					r = "panic"
+				}
+			}()
+			if f() != nil {
+				return "err"
+			}
+			return "ok"
+		}
+		rd := func() io.Reader { return strings.NewReader(arg(a, 1)) }
+		para := control.Paragraph{Values: map[string]string{"Package": "x"}, Order: []string{"Package"}}
+		ptrs := reflect.New(reflect.SliceOf(reflect.PtrTo(reflect.TypeOf(z))))
+		ints := []int{}
+		res := []string{
+			one(func() error { return control.Unmarshal(nilPtr, rd()) }),
+			one(func() error { return control.Unmarshal(nil, rd()) }),
+			one(func() error {
+				d, err := control.NewDecoder(rd(), nil)
+				if err != nil {
+					return err
+				}
+				return d.Decode(nilPtr)
+			}),
+			one(func() error { return control.UnpackFromParagraph(para, nilPtr) }),
+			one(func() error { return control.UnpackFromParagraph(para, nil) }),
+			one(func() error { return control.Unmarshal(&ints, rd()) }),
+		}
+		// []*T: either refused or decoded like []T
+		sl := one(func() error { return control.Unmarshal(ptrs.Interface(), rd()) })
+		n := -1
+		if sl == "ok" {
+			n = ptrs.Elem().Len()
+			for i := 0; i < n; i++ {
+				if ptrs.Elem().Index(i).IsNil() {
+					sl = "ok-with-nil-element"
+				}
+			}
+		}
+		return strings.Join(res, " ") + " | " + sl + " " + strconv.Itoa(n)
+	}
+	// cskipstruct: a struct-typed field tagged control:"-" whose own fields are named like fields of the document: the encoder
+	// leaves it out, and the decoder leaves it alone ("skipped fields")
+	ops["cskipstruct"] = func(a []string) string {
+		type Loc struct{ Source, Path string }
+		type T struct {
+			Source string
+			Where  Loc                `control:"-"`
+			Stats  struct{ Size int } `control:"-"`
+			Size   string
+		}
+		in := T{Source: arg(a, 0), Where: Loc{"disk", "/srv/incoming"}, Size: arg(a, 1)}
+		in.Stats.Size = 3
+		var buf bytes.Buffer
+		if err := control.Marshal(&buf, &in); err != nil {
+			return "marshal-err"
+		}
+		out := T{Where: in.Where}
+		out.Stats.Size = 3
+		if err := control.Unmarshal(&out, strings.NewReader(buf.String())); err != nil {
+			return "ok " + hx(buf.String()) + " unmarshal-err"
+		}
+		return fmt.Sprintf("ok %s %s %s %s %s %d", hx(buf.String()), hx(out.Source), hx(out.Size), hx(out.Where.Source), hx(out.Where.Path), out.Stats.Size)
 	}
 	// what the struct holds right after buildStruct: lets the driver check its own argument conventions
 	ops["cshow"] = func(a []string) string {
